@@ -488,6 +488,9 @@ def _oracle_e2e(f, impl):
     restarts = int(kv.get("restarts", "0"))
     if kv.get("bugs", "-") != "-":
         return "stub cloud reported: " + kv["bugs"][:200]
+    if kv.get("untracked", "-") != "-":
+        return ("live crunch-run process(es) on a probed instance are missing from the pool's Running(): "
+                + kv["untracked"][:200])
     for s in starts:
         if s["others"]:
             return (f"crunch-run for container {s['uuid']} started on {s['inst']} while a process of the same "
@@ -597,6 +600,7 @@ def describe(cases, impl):
             e["StartContainer_calls"] += int(kv.get("calls", 0))
             e["restarts"] += int(kv.get("restarts", 0))
             e["vms"] += int(kv.get("vms", 0))
+            e["tracked_checks"] = e.get("tracked_checks", 0) + int(kv.get("trackchecks", 0))
         elif f[0] == "sy" and r:
             for tag in ("qc", "qu", "pk", "qf"):
                 d["sy_actions"][tag] = d["sy_actions"].get(tag, 0) + len(re.findall(tag + r"\d", r))
